@@ -150,7 +150,7 @@ def null_data_script_pubkey(data: bytes) -> bytes:
     Script pubkey for Null data
     https://developer.bitcoin.org/devguide/transactions.html#null-data
     """
-    return constants.OP_RETURN.to_bytes(1, "big") + len(data).to_bytes(1, "big") + data
+    return constants.OP_RETURN.to_bytes(1, "big") + script([data.hex()])
 
 
 def p2sh_multisig_script_pubkey(m: int, pubkeys: typing.List[bytes]) -> bytes:
